@@ -284,11 +284,17 @@ impl BackupManager {
     /// Execute the backup by copying files.
     /// This can be called in a background thread.
     pub fn execute_backup(&self, handle: &BackupHandle) -> Result<()> {
+        #[cfg(luqing_studio_nervusdb_verif)]
+        nervusdb_api::verif_hooks::sched("backup.before_ndb_copy");
         // Copy .ndb file
         self.copy_ndb_file(handle)?;
+        #[cfg(luqing_studio_nervusdb_verif)]
+        nervusdb_api::verif_hooks::sched("backup.between_copies");
 
         // Copy .wal file (from checkpoint position)
         self.copy_wal_file(handle)?;
+        #[cfg(luqing_studio_nervusdb_verif)]
+        nervusdb_api::verif_hooks::sched("backup.after_wal_copy");
 
         // Mark backup as completed
         {
